@@ -1037,7 +1037,7 @@ impl Exec {
                 }
                 unsafe { end_call(self, t) };
             }
-            Op::DrainCheck { .. } | Op::Handoff | Op::Validate => {}
+            Op::DrainCheck { .. } | Op::Handoff | Op::Validate | Op::FreeTree { .. } => {}
         }
     }
 
